@@ -269,35 +269,28 @@ def checkLoop (fixed : Bool) : Nat → Bytes → SymHdr → PR SymHdr
 /-- `check_symbol_file` -/
 def checkSymFile (fixed : Bool) (s : Bytes) : PR SymHdr := checkLoop fixed (s.length + 1) s {}
 
+/-- after the type character: `if (*pos++ != ' ') continue; name = pos;` and the TAB cut -/
+def symTail (addr size : Nat) (ty : UInt8) (p : Bytes) : PR (Option SymLine) :=
+  match p with
+  | 32 :: nm => .ok (some ⟨addr, size, ty, cutFirst 9 nm⟩)
+  | _ => .ok none
+
 /-- one non-`#` line of `load_module_symbol_file`: the fields, or `none` ("invalid symbol file
-    format", line skipped) -/
+    format", line skipped).  When the line ends right where the type character should be, `type`
+    is the terminating NUL and the next `*pos++` reads the byte behind it. -/
 def symLine (fixed : Bool) (l0 : Bytes) : PR (Option SymLine) :=
   let l := cutFirst NL l0
   let a := strtoull16 l
   match a.2 with
-  | 32 :: p1 =>
-    -- type = *pos++  (the NUL when the line ends here)
-    let (ty, p2, ended) : UInt8 × Bytes × Bool :=
-      match p1 with
-      | [] => (0, [], true)
-      | c :: r => (c, r, false)
-    if !ended && isDigit ty then
-      let sz := strtoull16 p1
+  | [32] => if fixed then .ok none else .oob "stale byte after the symbol type"
+  | 32 :: ty :: p2 =>
+    if isDigit ty then
+      let sz := strtoull16 (ty :: p2)
       match sz.2 with
-      | 32 :: q1 =>
-        match q1 with
-        | [] => if fixed then .ok none else .oob "stale byte after the symbol type"
-        | ty2 :: q2 =>
-          match q2 with
-          | 32 :: nm => .ok (some ⟨a.1, sz.1 % 2 ^ 32, ty2, cutFirst 9 nm⟩)
-          | _ => .ok none
+      | [32] => if fixed then .ok none else .oob "stale byte after the symbol type"
+      | 32 :: ty2 :: q2 => symTail a.1 (sz.1 % 2 ^ 32) ty2 q2
       | _ => .ok none
-    else if ended then
-      (if fixed then .ok none else .oob "stale byte after the symbol type")
-    else
-      match p2 with
-      | 32 :: nm => .ok (some ⟨a.1, 0, ty, cutFirst 9 nm⟩)
-      | _ => .ok none
+    else symTail a.1 0 ty p2
   | _ => .ok none
 
 def symLines (fixed : Bool) : Nat → Bytes → List SymLine → PR (List SymLine)
